@@ -7,6 +7,8 @@ open SdnsVerif.Model SdnsVerif.Model.Blocklist SdnsVerif.Model.Util
 structure State where
   cfg : Cfg := { nullroute := [], null6route := [] }
   ps : PState := {}
+  /-- every reply handed to a writer in this case, oldest first -/
+  replies : List Outcome := []
 
 def hexStr (s : String) : Option Str :=
   (hexBytes s).map (fun bs => bs.map (fun b => Char.ofNat b.toNat))
@@ -63,6 +65,17 @@ def serveStr (o : Outcome) : String :=
     | [], [n] => s!"{head} rcode={r.rcode} aa={boolStr r.authoritative} ra={boolStr r.recursionAvailable} an=- ns={n.rrtype}:{n.ttl}"
     | _, _ => s!"{head} odd"
 
+/-- owner/type of the one record of every reply handed out so far (`n` = passed on). -/
+def heldStr (log : List Outcome) : String :=
+  if log.isEmpty then "_" else
+  ",".intercalate (log.map fun o =>
+    match o.written with
+    | none => "n"
+    | some r =>
+      match r.answer ++ r.ns with
+      | [rr] => s!"{strHex rr.name}/{rr.rrtype}"
+      | _ => "odd")
+
 def step (st : State) (w : List String) : State × String :=
   match w with
   | ["bl", "new", n4, n6, wl, bl, file] =>
@@ -71,16 +84,26 @@ def step (st : State) (w : List String) : State × String :=
       let mem0 := loadConfig wl bl
       if file == "_" then
         let ps : PState := { mem := mem0 }
-        ({ cfg := { nullroute := n4.toList, null6route := n6.toList }, ps := ps }, memStr mem0)
+        ({ cfg := { nullroute := n4.toList, null6route := n6.toList }, ps := ps, replies := [] }, memStr mem0)
       else match hexStr file with
         | some text =>
           let mem := parseHostFile mem0 text
           let ps : PState := { mem := mem, main := some (splitNL text) }
-          ({ cfg := { nullroute := n4.toList, null6route := n6.toList }, ps := ps }, memStr mem)
+          ({ cfg := { nullroute := n4.toList, null6route := n6.toList }, ps := ps, replies := [] }, memStr mem)
         | none => (st, "bad-op")
     | _, _ => (st, "bad-op")
   | ["bl", kind, arg] =>
-    if kind == "exists" then
+    if kind == "dirload" then
+      -- readBlocklists over <dir> = main file (+ a staging file with this content)
+      let temp : Option (Option (List Str)) :=
+        if arg == "_" then some none else (hexStr arg).map (fun t => some (splitNL t))
+      match temp with
+      | some temp =>
+        let mem' := dirLoadMem st.ps.mem st.ps.main temp
+        let ps := { st.ps with mem := mem', dirty := st.ps.dirty || decide (mem' ≠ st.ps.mem) }
+        ({ st with ps := ps }, s!"{memStr mem'} files=intact")
+      | none => (st, "bad-op")
+    else if kind == "exists" then
       match hexStr arg with
       | some k => (st, boolStr («exists» st.ps.mem k))
       | none => (st, "bad-op")
@@ -133,8 +156,12 @@ def step (st : State) (w : List String) : State × String :=
     | _, _ => (st, "bad-op")
   | ["bl", "serve", name, qt] =>
     match hexStr name, qt.toNat? with
-    | some q, some t => (st, serveStr (serveDNS st.cfg st.ps.mem q t))
+    | some q, some t =>
+      let log := serveLog st.cfg st.ps.mem st.replies q t
+      ({ st with replies := log }, serveStr (serveDNS st.cfg st.ps.mem q t))
     | _, _ => (st, "bad-op")
+  | ["bl", "held"] => (st, heldStr st.replies)
+  | "bl" :: "cserve" :: _ => (st, "unmodelled")
   | ["bl", "state"] =>
     (st, s!"{memStr st.ps.mem} w={listHex st.ps.mem.w} len={st.ps.mem.length} ver={st.ps.version} lp={st.ps.lastPersisted}")
   | ["bl", "file"] => (st, fileStr st.ps.main)
